@@ -24,7 +24,7 @@ LIFE = {  # job -> (enforced function, label, properties, loops)
     "ctor_move": ("su_ctor_move", "SU_vector::SU_vector(SU_vector&&)", "C08 C15", False),
     "ctor_ext": ("su_ctor_ext", "SU_vector::SU_vector(unsigned,double*)", "C08 C14 C15", False),
     "ctor_sized": ("su_ctor_sized", "SU_vector::SU_vector(unsigned)", "C08 C14 C15 C16", False),
-    "ctor_list": ("su_ctor_list", "SU_vector::SU_vector(const std::vector<double>&)", "C14 C15 C16", False),
+    "ctor_list": ("su_ctor_list", "SU_vector::SU_vector(const std::vector<double>&)", "C01 C14 C15 C16", False),
     "dtor": ("su_dtor", "SU_vector::~SU_vector()", "C08 C15", False),
     "SetBackingStore": ("su_SetBackingStore", "SU_vector::SetBackingStore", "C08 C15", False),
     "assign_copy": ("su_assign_copy", "SU_vector::operator=(const SU_vector&)", "C08 C14 C15 C16", False),
@@ -32,6 +32,7 @@ LIFE = {  # job -> (enforced function, label, properties, loops)
     "pluseq": ("su_pluseq", "SU_vector::operator+=(const SU_vector&)", "C14 C15", True),
     "minuseq": ("su_minuseq", "SU_vector::operator-=(const SU_vector&)", "C14 C15", True),
     "eq": ("su_eq", "SU_vector::operator==", "C01 C08 C15", True),
+    "GetComponents": ("su_GetComponents", "SU_vector::GetComponents", "C01 C15", True),
 }
 GUARDS = ["op_plus_0", "op_plus_1", "op_plus_2", "op_plus_3", "op_minus_0", "op_minus_1", "f_iCommutator", "f_ACommutator",
           "f_Elementwise_0", "f_Elementwise_1", "f_Elementwise_2", "f_Elementwise_3", "m_Evolve", "op_dot"]
@@ -60,7 +61,7 @@ class Fam:
             if self.pid not in props.split():
                 continue
             if n == "ctor_list":
-                for ln in range(0, 65):
+                for ln in (getattr(self, "list_ns", None) or range(0, 65)):
                     self.jobs.append((l1.Job("ctor_list.n%d" % ln, ct, "h_ctor_list", enforce=fn, replace=LIFE_REPL, includes=INC, timeout=300, object_bits=10,
                                              defines=["LIST_N=%d" % ln], slice_formula=True, sat_solver="cadical", function_label=label,
                                              where="src/SUNalg.cpp:137"), "suv_l1.c", props))
